@@ -177,7 +177,7 @@ func genC07(o *Out, rng *rand.Rand, tier string) {
 			if p.Options == nil {
 				p.Options = dhcpv4.Options{}
 			}
-			first := p.ToBytes()
+			first, _ := enc4(p) // kept while other messages are encoded
 			distinct := 1
 			for r := 1; r < reps; r++ {
 				if string(p.ToBytes()) != string(first) {
@@ -200,12 +200,68 @@ func genC07(o *Out, rng *rand.Rand, tier string) {
 	if tier == "thorough" {
 		n = 8000
 	}
-	for i := 0; i < n; i++ {
-		p := randPacket4(rng, rng.Intn(9), boundaryLens[:12])
+	// a packet is not changed by what is done to packets derived from it: a reply that echoes its options, a copy
+	// of its option map, each then given new values for the shared codes
+	for i := 0; i < n/3; i++ {
+		p := randPacket4(rng, rng.Intn(4), []int{0, 1, 4, 8})
 		if p.Options == nil {
 			p.Options = dhcpv4.Options{}
 		}
-		first := p.ToBytes()
+		callerBuf := map[uint8][]byte{}
+		for _, c := range []uint8{61, 82, 54, uint8(1 + rng.Intn(254))} {
+			callerBuf[c] = randBytes(rng, 1+rng.Intn(12))
+			p.UpdateOption(dhcpv4.OptGeneric(dhcpv4.GenericOptionCode(c), callerBuf[c])) // the stored value is the caller's slice
+		}
+		before := map[uint8]string{}
+		for c, b := range callerBuf {
+			before[c] = string(b)
+		}
+		val := proj4(p)
+		first, _ := enc4(p)
+		distinct := 1
+		derived := []*dhcpv4.DHCPv4{}
+		if r, err := dhcpv4.NewReplyFromRequest(p); err == nil {
+			derived = append(derived, r)
+		}
+		if r, err := dhcpv4.NewRequestFromOffer(p); err == nil {
+			derived = append(derived, r)
+		}
+		cp := *p
+		cp.Options = dhcpv4.Options{}
+		for c, v := range p.Options {
+			cp.Options[c] = v
+		}
+		derived = append(derived, &cp)
+		for _, d := range derived {
+			for c := range callerBuf {
+				if old, ok := d.Options[c]; ok && len(old) > 0 {
+					d.UpdateOption(dhcpv4.OptGeneric(dhcpv4.GenericOptionCode(c), randBytes(rng, 1+rng.Intn(len(old)))))
+				}
+			}
+		}
+		if string(p.ToBytes()) != string(first) {
+			distinct++
+		}
+		for c, b := range callerBuf {
+			if string(b) != before[c] {
+				distinct++ // the caller's own buffer was written to
+			}
+		}
+		o.Emit(map[string]any{"op": "Enc4", "val": val, "wire": B(p.ToBytes()), "nenc": distinct}, "derived-packets-updated", first, true)
+	}
+	var special []*dhcpv4.DHCPv4
+	hwAndIdentifier(rng, func(p *dhcpv4.DHCPv4) { special = append(special, p) })
+	for i := 0; i < n+len(special); i++ {
+		var p *dhcpv4.DHCPv4
+		if i < len(special) {
+			p = special[i]
+		} else {
+			p = randPacket4(rng, rng.Intn(9), boundaryLens[:12])
+		}
+		if p.Options == nil {
+			p.Options = dhcpv4.Options{}
+		}
+		first, _ := enc4(p) // kept while other messages are encoded
 		distinct := 1
 		for r := 1; r < reps; r++ {
 			if string(p.ToBytes()) != string(first) {
